@@ -2,7 +2,7 @@ import io
 import datetime
 
 
-def replay_csv(rows, cols, enc, blocked):
+def replay_csv(rows, cols, enc, blocked, second_config=False):
     import csv
     from cardutil.config import config
     from cardutil.cli import mci_csv_to_ipm, mci_ipm_to_csv
@@ -23,6 +23,12 @@ def replay_csv(rows, cols, enc, blocked):
     w.writeheader()
     w.writerows(table)
     buf.seek(0)
+    if second_config:
+        import copy
+        warm = io.StringIO('MTI,DE2,PDS0023\n1240,4444555566667777,warm\n')
+        mci_csv_to_ipm.mci_csv_to_ipm(warm, io.BytesIO(), config, out_encoding=enc, no1014blocking=not blocked)
+        config = copy.deepcopy(config)
+        del config['bit_config']['48']['field_processor']
     ipm = io.BytesIO()
     try:
         mci_csv_to_ipm.mci_csv_to_ipm(buf, ipm, config, out_encoding=enc, no1014blocking=not blocked)
